@@ -8,9 +8,10 @@ OPS = '{"acq", "nowait", "rel", "yield"}'
 ENV = '{"cancel", "native"}'
 
 
-def sconsts(nt, maxops, maxenv, fast, init, maxv, ops=OPS):
+def sconsts(nt, maxops, maxenv, fast, init, maxv, ops=OPS, env=ENV, retry=False):
     return {"NT": str(nt), "INF": "99", "Ops": ops, "MaxOps": str(maxops), "MaxEnv": str(maxenv),
-            "Fast": "TRUE" if fast else "FALSE", "EnvKinds": ENV, "InitV": str(init), "MaxV": str(maxv)}
+            "Fast": "TRUE" if fast else "FALSE", "EnvKinds": env, "InitV": str(init), "MaxV": str(maxv),
+            "Retry": "TRUE" if retry else "FALSE"}
 
 
 def skw(fast, init, maxv):
@@ -38,6 +39,11 @@ SEM = Family(
                  replay_kw=skw(False, 1, 2), max_scenarios=4000),
         ModelCfg("s-n3o2e1-ar", sconsts(3, 2, 1, False, 0, 0, ops='{"acq", "rel"}'), emit=True, check=False,
                  replay_kw=skw(False, 0, 0)),
+        # clients survive the cancellation of their scope (move_on_after pattern) and carry on
+        ModelCfg("s-n2o3e2-retry", sconsts(2, 3, 2, False, 1, 0, ops='{"acq", "rel"}', env='{"cancel"}', retry=True),
+                 emit=True, replay_kw={**skw(False, 1, 0), "retry": True}),
+        ModelCfg("s-n3o3e2-retry", sconsts(3, 3, 2, False, 1, 2, retry=True), simulate=1000, check=False,
+                 replay_kw={**skw(False, 1, 2), "retry": True}),
         ModelCfg("s-n3o2e2-i1", sconsts(3, 2, 2, False, 1, 0), tiers=("quick",), simulate=1000,
                  replay_kw=skw(False, 1, 0)),
         ModelCfg("s-n3o3e2-i2", sconsts(3, 3, 2, False, 2, 0), tiers=("thorough",), simulate=6000,
@@ -58,9 +64,10 @@ SEM = Family(
 LOPS = '{"acq", "acqf", "nowait", "rel", "relf", "set", "yield"}'
 
 
-def lconsts(nt, maxops, maxenv, total0, totals, ops=LOPS):
+def lconsts(nt, maxops, maxenv, total0, totals, ops=LOPS, env=ENV, retry=False):
     return {"NT": str(nt), "INF": "99", "Ops": ops, "MaxOps": str(maxops), "MaxEnv": str(maxenv),
-            "EnvKinds": ENV, "Total0": str(total0), "Totals": totals}
+            "EnvKinds": env, "Total0": str(total0), "Totals": totals,
+            "Retry": "TRUE" if retry else "FALSE"}
 
 
 def cmp_lim(model: dict, real: dict) -> list[str]:
@@ -78,6 +85,11 @@ LIM = Family(
                  replay_kw={"total": 1}),
         ModelCfg("l-n2o3e1-t1", lconsts(2, 3, 1, 1, "{0, 1}", ops='{"acq", "rel", "set", "nowait"}'),
                  emit=True, check=False, replay_kw={"total": 1}, max_scenarios=4000),
+        ModelCfg("l-n2o3e2-retry", lconsts(2, 3, 2, 1, "{0, 2}", ops='{"acq", "rel", "set"}', env='{"cancel"}',
+                                           retry=True),
+                 emit=True, replay_kw={"total": 1, "retry": True}, max_scenarios=3000),
+        ModelCfg("l-n3o3e2-retry", lconsts(3, 3, 2, 1, "{0, 2}", retry=True), simulate=1000, check=False,
+                 replay_kw={"total": 1, "retry": True}),
         ModelCfg("l-n3o2e1-t2", lconsts(3, 2, 1, 2, "{0, 1, 3}", ops='{"acq", "acqf", "rel", "set"}'),
                  tiers=("quick",), simulate=1500, replay_kw={"total": 2}),
         ModelCfg("l-n3o3e2-t1", lconsts(3, 3, 2, 1, "{0, 2, 99}"), tiers=("thorough",), check=False,
